@@ -53,7 +53,7 @@ class Check:
         return {}
 
     # ---- flow ---------------------------------------------------------------------------------
-    def run(self, ctx):
+    def run_core(self, ctx):
         self.model_checks(ctx)
         plan = self.plan(ctx)
         if ctx.replay:
@@ -84,7 +84,7 @@ class Check:
         for (n, s, c, e) in units:
             p = ctx.path("raw", c, n + ".ndjson")
             if bins[(n, c)] is None:
-                traces.setdefault(c, []).append({"e": "CompileFail", "case": "unit/" + n, "in": {"unit": n}, "out": {"ok": 0}})
+                traces.setdefault(c, []).append({"e": "CompileFail", "case": "unit/" + n, "cfg": c, "in": {"unit": n}, "out": {"ok": 0}})
                 continue
             evs = read_events(p)
             check_complete(p, evs)
@@ -118,6 +118,11 @@ class Check:
         log("judged %d events in %d shards in %.0fs: %d rejected" % (len(events), len(shards), time.time() - t, len(rejects)))
         if rejects:
             rejects = self.confirm(ctx, rejects)
+        return {"plan": plan, "cfgs": cfgs, "events": events, "jstates": jstates, "rejects": rejects}
+
+    def run(self, ctx):
+        r = self.run_core(ctx)
+        plan, cfgs, events, jstates, rejects = r["plan"], r["cfgs"], r["events"], r["jstates"], r["rejects"]
         known, viol = classify(self.prop, rejects)
         for kid, k in sorted(known.items()):
             print("KNOWN-FINDING: property=%s %s %s (%d rejected events, e.g. %s)" % (self.prop, kid, k["finding"]["what"], k["n"], k["example"]), flush=True)
